@@ -179,6 +179,21 @@ fn gen_list(s: &mut Src<'_>, env: &Env, allow_ineligible: bool, labels: &mut Vec
         outs.push(s.below(500) as u64);
     }
     let mut used: Vec<([u8; 32], u64)> = vec![];
+    // singleton-like spends: an odd coin that recreates ITSELF (same puzzle hash,
+    // same amount) and asserts its own parent id as its second condition — what
+    // makes a spend eligible for fast-forward as well as for dedup
+    let ff_like = amt & 1 == 1 && s.chance(70);
+    if ff_like {
+        labels.push("ff-like:recreates-itself-and-asserts-parent-second".into());
+        used.push((env.main.1, amt));
+        let shape = s.below(MEMO_SHAPES.len());
+        conds.push(create_coin(&env.main.1, amt, memo_shape(shape, s.u8())));
+        outs.retain(|o| *o == 0 || *o < 500);
+        outs.truncate(1);
+        if outs.first() == Some(&amt) {
+            outs.clear();
+        }
+    }
     for o in outs {
         let mut k = s.below(4);
         while used.contains(&(pool_ph(k), o)) {
@@ -250,6 +265,11 @@ fn gen_list(s: &mut Src<'_>, env: &Env, allow_ineligible: bool, labels: &mut Vec
     if conds.len() > 1 {
         let r = s.below(conds.len());
         conds.rotate_left(r);
+    }
+    if ff_like {
+        conds.retain(|c| op_of(c) != Some(71));
+        let at = conds.len().min(1);
+        conds.insert(at, N::L(vec![a(&[71]), a(&env.main.0)]));
     }
     (conds, helper_extra)
 }
